@@ -215,7 +215,7 @@ def run(chk, repo: Repo):
     chk.rule("C11-R2", "every _condition returns a fresh object (copy / constructor / call on a fresh local) on every path", floor=5)
     chk.rule("C11-R3", "JointDistribution: list copied, every factor unconditionally replaced by a conditioned copy, then reduced; "
                        "_add_constants_to_density only receives fresh objects", floor=5)
-    chk.rule("C11-R4", "conditioned copies keep the name of their original", floor=3)
+    chk.rule("C11-R4", "conditioned copies keep the name of their original (every _condition below Density.name copies through _make_copy)", floor=3)
     chk.rule("C11-R5", "Gibbs samplers are constructed on target() and re-condition that private copy", floor=4)
     _r1(chk, repo)
     _r2(chk, repo)
